@@ -624,9 +624,7 @@ fn mapping_atomic_applicable_member_types_inner(
 ) -> anyhow::Result<Vec<Rc<SemType>>> {
     match key {
         MappingStrKey::Str { allowed, values } => {
-            if !allowed {
-                return Ok(vec![]);
-            }
+            // allowed: the listed keys; otherwise every key except the listed ones
             let mut member_types = vec![];
             for (k, ty) in atomic.vs.iter() {
                 let mut found = false;
@@ -638,13 +636,14 @@ fn mapping_atomic_applicable_member_types_inner(
                     }
                 }
 
-                if found {
+                if found == allowed {
                     member_types.push(ty.clone());
                 }
             }
 
-            let is_subtype = member_types.len() == atomic.vs.len();
-            if !is_subtype
+            // a selected key that is not declared falls under the index signature
+            let selects_undeclared = !allowed || values.iter().any(|l| !atomic.vs.contains_key(l));
+            if selects_undeclared
                 && let Some(v) = &atomic.indexed_properties
                 && v.key.is_all_strings()
             {
